@@ -27,7 +27,15 @@ def _targets(t: ast.AST, path: Tuple[int, ...] = ()) -> Iterator[Tuple[ast.AST, 
 
 def definitions(func: ast.AST, comp: bool = False) -> Dict[str, List[Def]]:
     """comp=True also lists comprehension targets (they live in their own scope)."""
+    cache_attr = "_vs_defs_comp" if comp else "_vs_defs"
+    cached = getattr(func, cache_attr, None)
+    if cached is not None:
+        return cached
     defs: Dict[str, List[Def]] = {}
+    try:
+        setattr(func, cache_attr, defs)
+    except AttributeError:
+        pass
 
     def add(name: str, d: Def):
         defs.setdefault(name, []).append(d)
